@@ -969,7 +969,7 @@ class Engine:
     def op_store(self, st, fr, ins):
         addr = self.val(st, fr, ins["addr"])
         v = self.val(st, fr, ins["val"])
-        self.store(st, addr, v, ins.get("pos"), self._valbits(ins["val"]))
+        self.store(st, addr, v, ins.get("pos"), self.p.types[ins["vt"]].get("bits") if ins.get("vt") else None)
 
     def _valbits(self, o):
         t = o.get("t")
